@@ -579,7 +579,7 @@ func (c *CqlServerConnection) addMultiSegmentPayload(payload *segment.Payload) (
 
 func (c *CqlServerConnection) writeSegment(outgoing *frame.Frame, dest io.Writer) (abort bool) {
 	// never compress frames individually when included in a segment
-	outgoing.Header.Flags.Remove(primitive.HeaderFlagCompressed)
+	outgoing.Header.Flags = outgoing.Header.Flags.Remove(primitive.HeaderFlagCompressed)
 	encodedFrame := &bytes.Buffer{}
 	if abort = c.writeFrame(outgoing, encodedFrame); abort {
 		abort = true
